@@ -58,12 +58,20 @@ impl PseudoArgData {
 
         Ok(PseudoArgData {
             blob: blob.map(|str| parse_args_blob(str).map(|s| sp!(str.span => s))).transpose()?,
-            param_mask: param_mask.map(|x| sp!(x.span => x.value as _)),
-            pop: pop.map(|x| sp!(x.span => x.value as _)),
-            extra_arg: extra_arg.map(|x| sp!(x.span => x.value as _)),
-            arg_count: arg_count.map(|x| sp!(x.span => x.value as _)),
+            param_mask: param_mask.map(fit_pseudo).transpose()?,
+            pop: pop.map(fit_pseudo).transpose()?,
+            extra_arg: extra_arg.map(fit_pseudo).transpose()?,
+            arg_count: arg_count.map(fit_pseudo).transpose()?,
         })
     }
+}
+
+/// Convert the value of a pseudo-arg to the type of the field it sets.
+fn fit_pseudo<T: std::convert::TryFrom<raw::LangInt>>(value: Sp<raw::LangInt>) -> Result<Sp<T>, Diagnostic> {
+    T::try_from(value.value).map(|x| sp!(value.span => x)).map_err(|_| error!(
+        message("pseudo-arg value out of range"),
+        primary(value, "does not fit in the field it sets"),
+    ))
 }
 
 fn parse_args_blob(str: Sp<&str>) -> Result<Vec<u8>, Diagnostic> {
